@@ -116,6 +116,9 @@ def gen_configs(pid, tier):
                 ("gen_part_reg21", base_consts(GMin=1, GMax=1, LatChoices=set(), CtlOps={"partition_oneway", "repair_oneway"},
                                                HostCtlOps={"repair_oneway"}, MaxMsgs=2, MaxSteps=3, MaxCtl=2, MaxLatCtl=0,
                                                RegOrder=reg(2, 1)))]
+        # TCP probes and the answers the receiving host makes inside deliver_messages
+        cfgs.append(("gen_part_probe", base_consts(GMin=1, GMax=1, LatChoices=set(), CtlOps=set(PART_OPS), HostCtlOps=set(),
+                                                   Kinds={"probe"}, MaxMsgs=4, MaxSteps=3, MaxCtl=2, MaxLatCtl=0)))
         if not q:
             cfgs.append(("gen_part_3msg", base_consts(GMin=2, GMax=2, LatChoices={0}, CtlOps=set(PART_OPS),
                                                       HostCtlOps={"repair_oneway"}, MaxMsgs=3, MaxSteps=3, MaxCtl=2, MaxLatCtl=1)))
@@ -128,6 +131,8 @@ def gen_configs(pid, tier):
                                                     AllowManual=True, MaxMsgs=2, MaxSteps=3, MaxCtl=3, MaxLatCtl=0)))
         cfgs.append(("gen_hold_repair", base_consts(GMin=1, GMax=1, LatChoices=set(), CtlOps=set(HOLD_REPAIR_OPS), HostCtlOps=set(),
                                                     AllowManual=False, MaxMsgs=2, MaxSteps=3, MaxCtl=3, MaxLatCtl=0)))
+        cfgs.append(("gen_hold_probe", base_consts(GMin=1, GMax=1, LatChoices=set(), CtlOps=set(HOLD_OPS), HostCtlOps=set(),
+                                                   AllowManual=True, Kinds={"probe"}, MaxMsgs=4, MaxSteps=3, MaxCtl=3, MaxLatCtl=0)))
         if not q:
             cfgs.append(("gen_hold_3msg", base_consts(GMin=0, GMax=0, LatChoices=set(), CtlOps=set(HOLD_OPS), HostCtlOps={"hold"},
                                                       AllowManual=True, MaxMsgs=3, MaxSteps=3, MaxCtl=3, MaxLatCtl=0)))
@@ -138,6 +143,8 @@ def gen_configs(pid, tier):
                 # release calls on links that were never held (Sim handle and host code)
                 ("gen_lat_release", base_consts(Tick=2, GMin=3, GMax=3, LatChoices={5}, Offsets={0}, CtlOps={"release"},
                                                 HostCtlOps={"release"}, MaxMsgs=2, MaxSteps=4, MaxCtl=2, MaxLatCtl=1))]
+        cfgs.append(("gen_lat_probe", base_consts(Tick=2, GMin=1, GMax=1, LatChoices={0, 3}, Offsets={0}, Kinds={"dgram", "probe"},
+                                                  MaxMsgs=3, MaxSteps=4, MaxLatCtl=1)))
         if not q:
             cfgs.append(("gen_lat_t3", base_consts(Tick=3, GMin=4, GMax=4, LatChoices={0, 1, 3, 7}, Offsets={0, 2},
                                                    MaxMsgs=3, MaxSteps=4, MaxLatCtl=2)))
